@@ -236,7 +236,7 @@ def setup(tier, seed):
     jobs = _jobs(tier)
     return {
         'jobs': jobs,
-        'budget_s': 900 if tier == 'quick' else 3300,
+        'budget_s': 780 if tier == 'quick' else 3300,
         'explanation': 'symbolic sessions through the real simulator/Strategy/Position/ClosedTrades; the observed fills of each path are folded '
                        'through the average-cost model of C03, giving the expected hook per fill, the expected position size, and the expected closed '
                        'trade of each open..close cycle; z3 proves hook sequence/arguments, every ClosedTrade field (side, qty, qty-weighted entry and '
